@@ -25,7 +25,7 @@ ID = "C10"
 LEVEL = "exploration"
 ENGINE = "simexec"
 
-TIERS = {"quick": {"runs": 240, "budget": 75.0, "cap": 150.0},
+TIERS = {"quick": {"runs": 600, "budget": 75.0, "cap": 150.0},
          "thorough": {"runs": 100000, "budget": 900.0, "cap": 300.0}}
 
 KINDS = ["generic", "uncoupled", "two_site", "commuting"]
